@@ -16,164 +16,7 @@ func C11(c *Ctx) {
 	r := c.R
 	r.Explanation = "Static invariants of ClientStateResponseWriter, which hold for every handler program because handlers can only act through these methods: (1) in WriteHeader and Write the call on the embedded writer is preceded, on every path, by the hasWritten==true edge or by a putClientState() call whose error is not dropped (no condition on the bytes written or the status code); (2) every putClientState call site is dominated by hasWritten==false, and inside putClientState the store hasWritten=true dominates every WriteState call and every return (re-entrancy through WriteState(c,…) and error paths included); (3) family pairing: the session store receives the session state and session queue, the cookie store the cookie ones; setState appends to the queue selected by the context key its callers pass, Put/Del/DelAll{Session,Cookie} pass their own family's key, getState/LoadClientState use the matching key and field; (4) the queues are written only by setState, by append on the same field, and are handed to WriteState unmodified; (5) the request-scoped state keys are installed only by LoadClientState and the expiry middleware; (6) MustClientStateResponseWriter unwraps *ClientStateResponseWriter, UnderlyingResponseWriter and Unwrap() wrappers and panics otherwise."
 	r.NotDecided = []string{"behaviour after Hijack, and of http.ResponseController methods reaching the embedded writer through Unwrap()", "the integrator's ClientStateReadWriter"}
-	put := c.P.Func("(*ab.ClientStateResponseWriter).putClientState")
-	flushers := map[string]bool{}
-	// the latch lives in the writer object the handler chain shares: a method
-	// that flushes must act on that object, not on a copy of it
-	sharedWriter := func(v ssa.Value) bool {
-		for {
-			switch x := v.(type) {
-			case *ssa.FieldAddr:
-				v = x.X
-				continue
-			case *ssa.Alloc:
-				return false
-			}
-			return true
-		}
-	}
-
-	// (1) flush before any underlying write
-	for _, m := range []struct{ fn, under string }{
-		{"(*ab.ClientStateResponseWriter).WriteHeader", "(net/http.ResponseWriter).WriteHeader"},
-		{"(*ab.ClientStateResponseWriter).Write", "(net/http.ResponseWriter).Write"},
-	} {
-		fn := c.P.Func(m.fn)
-		name := FuncName(fn)
-		flushers[name] = true
-		unders := CallsTo(fn, m.under)
-		if len(unders) == 0 {
-			r.Bad("C11.flush-first", name, "underlying write", "-", "method does not reach the embedded writer")
-			continue
-		}
-		isPut := func(i ssa.Instruction) bool {
-			call, ok := i.(ssa.CallInstruction)
-			return ok && StaticCallee(call) == put
-		}
-		isUnder := func(i ssa.Instruction) bool {
-			call, ok := i.(ssa.CallInstruction)
-			return ok && Callee(call) == m.under
-		}
-		q := PathQuery{StartBlock: fn.Blocks[0], Cut: isPut, Goal: isUnder, Prune: func(from, to *ssa.BasicBlock) bool {
-			f, ok := EdgeFact(from, to)
-			if !ok {
-				return false
-			}
-			rel := f.Rel()
-			return rel.B != nil && rel.Pol && loadsField(rel.B, "hasWritten")
-		}}
-		if p := q.Find(); p != nil {
-			r.Bad("C11.flush-first", name, "underlying write", posf(c, unders[0]), "the embedded writer can be reached with hasWritten==false and without putClientState(): bytes/headers are released before the queued session/cookie changes", c.P.DescribePath(p)...)
-		} else {
-			r.Ok("C11.flush-first", name, "underlying write", posf(c, unders[0]), "every path first flushes or has already flushed")
-		}
-		// flush call: guarded by !hasWritten, error not dropped
-		for _, call := range Calls(fn) {
-			if StaticCallee(call) != put {
-				continue
-			}
-			okG := HasFact(FactsAtInstr(call.(ssa.Instruction)), func(f Fact) bool {
-				rel := f.Rel()
-				return rel.B != nil && !rel.Pol && loadsField(rel.B, "hasWritten")
-			})
-			r.Check(okG, "C11.flush-once", name, "putClientState()", posf(c, call), "only under !hasWritten", "putClientState can be called although the state was already flushed (double delivery)")
-			k, _ := c.errHandling(call)
-			r.Check(k == "tested" || k == "returned", "C11.flush-err", name, "putClientState().err", posf(c, call), "flush error is acted upon", "error of the flush is "+k)
-			// on flush failure the underlying write must not happen (Write) / panic (WriteHeader)
-			if e := ErrResult(call); e != nil {
-				for _, u := range unders {
-					okNil := ErrNilAt(u.(ssa.Instruction), e) || !Reaches(call.(ssa.Instruction), u.(ssa.Instruction))
-					// the underlying call is after the if: it is reached from both the no-flush
-					// and the flushed-ok paths; require that the error edge does not reach it
-					if !okNil {
-						q := PathQuery{From: call.(ssa.Instruction), NonNil: map[ssa.Value]bool{e: true}, Goal: func(i ssa.Instruction) bool { return i == u.(ssa.Instruction) }, Prune: func(from, to *ssa.BasicBlock) bool {
-							f, ok := EdgeFact(from, to)
-							return ok && f.SaysNil(e)
-						}}
-						okNil = q.Find() == nil
-					}
-					r.Check(okNil, "C11.flush-err", name, "no write after failed flush", posf(c, u), "a failed flush stops the response", "the embedded writer is used although the flush failed")
-				}
-			}
-		}
-	}
-	// all other call sites of putClientState
-	for _, call := range c.Callers(put) {
-		fnm := fname(call)
-		if args := call.Common().Args; len(args) > 0 {
-			r.Check(sharedWriter(args[0]), "C11.flag-shared", fnm, "putClientState() receiver", posf(c, call), "flush acts on the shared writer", "the flush is performed on a local copy of the ClientStateResponseWriter (value receiver or struct copy): hasWritten is latched on the copy, so the next Write/WriteHeader on the shared writer flushes the queued changes again")
-		}
-		if flushers[fnm] {
-			continue
-		}
-		okG := HasFact(FactsAtInstr(call.(ssa.Instruction)), func(f Fact) bool {
-			rel := f.Rel()
-			return rel.B != nil && !rel.Pol && loadsField(rel.B, "hasWritten")
-		})
-		r.Check(okG, "C11.flush-once", fnm, "putClientState()", posf(c, call), "only under !hasWritten", "additional flush site not guarded by !hasWritten")
-	}
-
-	// (2) inside putClientState
-	pn := FuncName(put)
-	var setTrue *ssa.Store
-	for _, b := range put.Blocks {
-		for _, in := range b.Instrs {
-			st, ok := in.(*ssa.Store)
-			if !ok {
-				continue
-			}
-			fa, ok := st.Addr.(*ssa.FieldAddr)
-			if !ok || fieldName(fa) != "hasWritten" {
-				continue
-			}
-			if !sharedWriter(fa.X) {
-				r.Bad("C11.flag-shared", pn, "hasWritten store", posf(c, st), "hasWritten is stored into a local copy of the writer (value receiver): the latch is lost when putClientState returns")
-			}
-			if v, isC := ConstBool(st.Val); isC && v {
-				if setTrue == nil {
-					setTrue = st
-				}
-			} else {
-				r.Bad("C11.flag", pn, "hasWritten=<not true>", posf(c, st), "flag reset or set to a non-constant")
-			}
-		}
-	}
-	if setTrue == nil {
-		r.Bad("C11.flag", pn, "hasWritten=true", "-", "putClientState never sets hasWritten")
-	} else {
-		okAll := true
-		what := ""
-		for _, b := range put.Blocks {
-			for _, in := range b.Instrs {
-				switch x := in.(type) {
-				case *ssa.Return:
-					if !InstrDominates(setTrue, x) {
-						okAll, what = false, "a return at "+posf(c, x)
-					}
-				case ssa.CallInstruction:
-					if Callee(x) == "(ab.ClientStateReadWriter).WriteState" && !InstrDominates(setTrue, x.(ssa.Instruction)) {
-						okAll, what = false, "WriteState at "+posf(c, x)
-					}
-				}
-			}
-		}
-		r.Check(okAll, "C11.flag", pn, "hasWritten=true first", posf(c, setTrue), "set before any WriteState and before every return", "hasWritten=true does not precede "+what+": a WriteState that writes through c (or a failed flush followed by another write) would flush the same events again")
-	}
-	// flag written nowhere else
-	for _, f := range c.P.Funcs {
-		if f == put {
-			continue
-		}
-		for _, b := range f.Blocks {
-			for _, in := range b.Instrs {
-				if st, ok := in.(*ssa.Store); ok {
-					if fa, ok := st.Addr.(*ssa.FieldAddr); ok && fieldName(fa) == "hasWritten" && strings.HasSuffix(fa.X.Type().String(), "ClientStateResponseWriter") {
-						r.Bad("C11.flag", FuncName(f), "hasWritten store", posf(c, st), "flush flag written outside putClientState")
-					}
-				}
-			}
-		}
-	}
+	c.flushDiscipline()
 	// (3)(4) pairing and queues
 	c.flushUnmodified("C11.queue")
 	c.familyPairing()
@@ -391,6 +234,170 @@ func (c *Ctx) unwrapShape() {
 				}
 			}
 			r.Check(okRet, "C11.unwrap", name, "return", posf(c, ret), "returns the writer whose assertion succeeded", "returns a value that is not a successfully asserted *ClientStateResponseWriter")
+		}
+	}
+}
+
+// flushDiscipline: parts (1) and (2) of C11 — the queued changes are flushed
+// before the first byte, exactly once, whatever the status code or body.
+func (c *Ctx) flushDiscipline() {
+	r := c.R
+	put := c.P.Func("(*ab.ClientStateResponseWriter).putClientState")
+	flushers := map[string]bool{}
+	// the latch lives in the writer object the handler chain shares: a method
+	// that flushes must act on that object, not on a copy of it
+	sharedWriter := func(v ssa.Value) bool {
+		for {
+			switch x := v.(type) {
+			case *ssa.FieldAddr:
+				v = x.X
+				continue
+			case *ssa.Alloc:
+				return false
+			}
+			return true
+		}
+	}
+
+	// (1) flush before any underlying write
+	for _, m := range []struct{ fn, under string }{
+		{"(*ab.ClientStateResponseWriter).WriteHeader", "(net/http.ResponseWriter).WriteHeader"},
+		{"(*ab.ClientStateResponseWriter).Write", "(net/http.ResponseWriter).Write"},
+	} {
+		fn := c.P.Func(m.fn)
+		name := FuncName(fn)
+		flushers[name] = true
+		unders := CallsTo(fn, m.under)
+		if len(unders) == 0 {
+			r.Bad("C11.flush-first", name, "underlying write", "-", "method does not reach the embedded writer")
+			continue
+		}
+		isPut := func(i ssa.Instruction) bool {
+			call, ok := i.(ssa.CallInstruction)
+			return ok && StaticCallee(call) == put
+		}
+		isUnder := func(i ssa.Instruction) bool {
+			call, ok := i.(ssa.CallInstruction)
+			return ok && Callee(call) == m.under
+		}
+		q := PathQuery{StartBlock: fn.Blocks[0], Cut: isPut, Goal: isUnder, Prune: func(from, to *ssa.BasicBlock) bool {
+			f, ok := EdgeFact(from, to)
+			if !ok {
+				return false
+			}
+			rel := f.Rel()
+			return rel.B != nil && rel.Pol && loadsField(rel.B, "hasWritten")
+		}}
+		if p := q.Find(); p != nil {
+			r.Bad("C11.flush-first", name, "underlying write", posf(c, unders[0]), "the embedded writer can be reached with hasWritten==false and without putClientState(): bytes/headers are released before the queued session/cookie changes", c.P.DescribePath(p)...)
+		} else {
+			r.Ok("C11.flush-first", name, "underlying write", posf(c, unders[0]), "every path first flushes or has already flushed")
+		}
+		// flush call: guarded by !hasWritten, error not dropped
+		for _, call := range Calls(fn) {
+			if StaticCallee(call) != put {
+				continue
+			}
+			okG := HasFact(FactsAtInstr(call.(ssa.Instruction)), func(f Fact) bool {
+				rel := f.Rel()
+				return rel.B != nil && !rel.Pol && loadsField(rel.B, "hasWritten")
+			})
+			r.Check(okG, "C11.flush-once", name, "putClientState()", posf(c, call), "only under !hasWritten", "putClientState can be called although the state was already flushed (double delivery)")
+			k, _ := c.errHandling(call)
+			r.Check(k == "tested" || k == "returned", "C11.flush-err", name, "putClientState().err", posf(c, call), "flush error is acted upon", "error of the flush is "+k)
+			// on flush failure the underlying write must not happen (Write) / panic (WriteHeader)
+			if e := ErrResult(call); e != nil {
+				for _, u := range unders {
+					okNil := ErrNilAt(u.(ssa.Instruction), e) || !Reaches(call.(ssa.Instruction), u.(ssa.Instruction))
+					// the underlying call is after the if: it is reached from both the no-flush
+					// and the flushed-ok paths; require that the error edge does not reach it
+					if !okNil {
+						q := PathQuery{From: call.(ssa.Instruction), NonNil: map[ssa.Value]bool{e: true}, Goal: func(i ssa.Instruction) bool { return i == u.(ssa.Instruction) }, Prune: func(from, to *ssa.BasicBlock) bool {
+							f, ok := EdgeFact(from, to)
+							return ok && f.SaysNil(e)
+						}}
+						okNil = q.Find() == nil
+					}
+					r.Check(okNil, "C11.flush-err", name, "no write after failed flush", posf(c, u), "a failed flush stops the response", "the embedded writer is used although the flush failed")
+				}
+			}
+		}
+	}
+	// all other call sites of putClientState
+	for _, call := range c.Callers(put) {
+		fnm := fname(call)
+		if args := call.Common().Args; len(args) > 0 {
+			r.Check(sharedWriter(args[0]), "C11.flag-shared", fnm, "putClientState() receiver", posf(c, call), "flush acts on the shared writer", "the flush is performed on a local copy of the ClientStateResponseWriter (value receiver or struct copy): hasWritten is latched on the copy, so the next Write/WriteHeader on the shared writer flushes the queued changes again")
+		}
+		if flushers[fnm] {
+			continue
+		}
+		okG := HasFact(FactsAtInstr(call.(ssa.Instruction)), func(f Fact) bool {
+			rel := f.Rel()
+			return rel.B != nil && !rel.Pol && loadsField(rel.B, "hasWritten")
+		})
+		r.Check(okG, "C11.flush-once", fnm, "putClientState()", posf(c, call), "only under !hasWritten", "additional flush site not guarded by !hasWritten")
+	}
+
+	// (2) inside putClientState
+	pn := FuncName(put)
+	var setTrue *ssa.Store
+	for _, b := range put.Blocks {
+		for _, in := range b.Instrs {
+			st, ok := in.(*ssa.Store)
+			if !ok {
+				continue
+			}
+			fa, ok := st.Addr.(*ssa.FieldAddr)
+			if !ok || fieldName(fa) != "hasWritten" {
+				continue
+			}
+			if !sharedWriter(fa.X) {
+				r.Bad("C11.flag-shared", pn, "hasWritten store", posf(c, st), "hasWritten is stored into a local copy of the writer (value receiver): the latch is lost when putClientState returns")
+			}
+			if v, isC := ConstBool(st.Val); isC && v {
+				if setTrue == nil {
+					setTrue = st
+				}
+			} else {
+				r.Bad("C11.flag", pn, "hasWritten=<not true>", posf(c, st), "flag reset or set to a non-constant")
+			}
+		}
+	}
+	if setTrue == nil {
+		r.Bad("C11.flag", pn, "hasWritten=true", "-", "putClientState never sets hasWritten")
+	} else {
+		okAll := true
+		what := ""
+		for _, b := range put.Blocks {
+			for _, in := range b.Instrs {
+				switch x := in.(type) {
+				case *ssa.Return:
+					if !InstrDominates(setTrue, x) {
+						okAll, what = false, "a return at "+posf(c, x)
+					}
+				case ssa.CallInstruction:
+					if Callee(x) == "(ab.ClientStateReadWriter).WriteState" && !InstrDominates(setTrue, x.(ssa.Instruction)) {
+						okAll, what = false, "WriteState at "+posf(c, x)
+					}
+				}
+			}
+		}
+		r.Check(okAll, "C11.flag", pn, "hasWritten=true first", posf(c, setTrue), "set before any WriteState and before every return", "hasWritten=true does not precede "+what+": a WriteState that writes through c (or a failed flush followed by another write) would flush the same events again")
+	}
+	// flag written nowhere else
+	for _, f := range c.P.Funcs {
+		if f == put {
+			continue
+		}
+		for _, b := range f.Blocks {
+			for _, in := range b.Instrs {
+				if st, ok := in.(*ssa.Store); ok {
+					if fa, ok := st.Addr.(*ssa.FieldAddr); ok && fieldName(fa) == "hasWritten" && strings.HasSuffix(fa.X.Type().String(), "ClientStateResponseWriter") {
+						r.Bad("C11.flag", FuncName(f), "hasWritten store", posf(c, st), "flush flag written outside putClientState")
+					}
+				}
+			}
 		}
 	}
 }
